@@ -630,10 +630,17 @@ def classify(violation, findings):
 
 def known_finding_lines(findings, ev):
     """the rule stream contains fixed witnesses of the class (c3 00 a4 ...), so every run exercises the finding"""
+    out = []
     f = _known_entry(findings)
     if f is not None and _SEEN["known_class"] > 0:
-        return [f["line"]]
-    return []
+        out.append(f["line"])
+    # the exhaustive 8-bit round-trip batch (rtds N i8/u8 ...) contains the six whitespace values on every run; implementation and
+    # model agree there (both report the failure), so it is not a diff - the finding is listed because the literal property text
+    # ("for every integer") does not hold on them
+    for g in findings:
+        if g.get("property") == "C15" and g.get("status") == "known" and (g.get("match") or {}).get("kind") == "char-type-whitespace-value":
+            out.append(g["line"])
+    return out
 
 
 MANIFEST = {
